@@ -3,6 +3,7 @@ import XProofs.Limits
 import XModel.Opt
 import XModel.OptFix
 import XModel.OptLimits
+import XProofs.MaxStep
 /-!
 # C10 — accepted optimizer iterates respect limits, max_step and disabled knobs
 
@@ -98,6 +99,51 @@ theorem C10_rows_within_limits_active {R : Type} (c : Opt.Cfg R) (its : List (Op
       row.vAct = s.vAct ∧ ∀ j, j < c.n → row.vAct j = true → c.inLimits j (row.knobs j) = true) ∧
     (r = .ok () → ∀ j, j < c.n → s'.vAct j = true → c.inLimits j (s'.knobs j) = true) :=
   Opt.optStep_rows_within_limits c its tb s s' r hstart htb h
+
+/-! ### `max_step`, connected to the skeleton of `Optimize.step`
+
+`OptNum.clip` and `OptNum.trialPoint` are the functions the driver replays on IEEE doubles, bit for bit, against every
+recorded call of `_clip_to_max_steps` and every recorded trial point of `JacobianSolver.step` (fields `clip_ok`,
+`trial_ok` of suite `opt`); the theorems below instantiate them with exact arithmetic.  What stays outside: rounding
+(in doubles `out * (m / |out_i|)` may exceed `m` by an ulp). -/
+
+/-- **one Jacobian step moves no knob by more than its `max_step`**: the point the solver moves to is a trial point
+    `x - scal * clip(raw)` (`0 ≤ scal ≤ 1`, coordinates that would leave the limits stay put) of the clipped step, for
+    ANY raw step the least-squares solve produced; times the weight it is within `max_step` of `x` times the weight -/
+theorem C10_step_within_max_step (maxStep wt : Nat → Option K) (n : Nat) (raw lo hi x : Nat → K) (scal : K)
+    (h0 : 0 ≤ scal) (h1 : scal ≤ 1) (hms : ∀ k m, maxStep k = some m → 0 ≤ m) (hw : ∀ k w, wt k = some w → 0 < w)
+    (i : Nat) (hi' : i < n) (m : K) (hm : maxStep i = some m) :
+    |OptNum.trialPoint MaxStep.fo lo hi x (OptNum.clip MaxStep.fo (OptNum.maxsOf MaxStep.fo maxStep wt) n raw) scal i - x i|
+      * (wt i).getD 1 ≤ m :=
+  MaxStep.step_within_max_step maxStep wt n raw lo hi x scal h0 h1 hms hw i hi' m hm
+
+/-- a trial point stays inside limits that hold at the start point (the clamp of the bisection loop, as replayed) -/
+theorem C10_trial_point_inside (lo hi x xs : Nat → K) (scal : K) (i : Nat) (hx : lo i ≤ x i ∧ x i ≤ hi i) :
+    lo i ≤ OptNum.trialPoint MaxStep.fo lo hi x xs scal i ∧ OptNum.trialPoint MaxStep.fo lo hi x xs scal i ≤ hi i :=
+  MaxStep.trialPoint_inside lo hi x xs scal i hx
+
+/-- **between consecutive Jacobian steps no knob moves by more than its `max_step`** — on the control skeleton of
+    `Optimize.step`, whatever its outcome: the log is unchanged (the start evaluation raised), or the rows the call appends
+    are the container at the start of the call, then a chain of rows each within `max_step` of its predecessor on every
+    active knob (`MaxStep.Chain`; the first one up to the slack `e` the code tolerates between the container and
+    `solver.x` when it does not re-assign `solver.x`, `np.allclose(atol=1e-12)`, exactly from then on), then at most one
+    row of the `take_best` reload.  Hypothesis `LoopOK`: every EXECUTED solver step moves by at most `max_step` in
+    knob units — which `C10_step_within_max_step` gives for steps taken by the trial rule. -/
+theorem C10_consecutive_rows_within_max_step (c : Opt.Cfg K) (W : Nat → K) (ms : Nat → Option K)
+    (hc : MaxStep.Weights c W) (hms : ∀ k m, ms k = some m → 0 ≤ m) (its : List (Opt.Iter K)) (tb : Option Nat)
+    (e : K) (he : 0 ≤ e) (s s' : Opt.St K) (r : Except Opt.Err Unit)
+    (hnear : ∀ it rest, its = it :: rest → it.resync = false → MaxStep.Near c W e s)
+    (hok : ∀ s1, Opt.addPoint c s = (.ok (), s1) → MaxStep.LoopOK c W ms s1 its)
+    (h : Opt.optStep c its tb s = (r, s')) :
+    s'.log = s.log ∨ ∃ suf tail, s'.log = s.log ++ (⟨s.knobs, s.vAct, s.tAct⟩ :: suf) ++ tail ∧
+      MaxStep.Chain c.n s.vAct ms e s.knobs suf ∧ tail.length ≤ 1 :=
+  MaxStep.optStep_chain c W ms hc hms its tb e he s s' r hnear hok h
+
+/-- non-vacuity of the step bound: `max_step = 1` (weight 4, so 1/4 in solver units), raw step 10 from `x = 0`, full
+    step (`scal = 1`) inside wide limits: the knob moves by exactly 1 -/
+example : OptNum.trialPoint (MaxStep.fo (K := ℚ)) (fun _ => -100) (fun _ => 100) (fun _ => 0)
+    (OptNum.clip MaxStep.fo (OptNum.maxsOf MaxStep.fo (fun _ => some 1) (fun _ => some 4)) 1 (fun _ => 10)) 1 0 * 4 = -1 := by
+  norm_num [OptNum.trialPoint, OptNum.trialStep, OptNum.clip, OptNum.clipAt, OptNum.maxsOf, MaxStep.fo, List.range_succ, List.foldl]
 
 /-- the pinned code's behaviour on the probed witness (max_step = (1, 5), raw step (10, 10)): knob 0 moves by 5 -/
 example : Clip.clipPinned (fun i => if i = 0 then some 1 else some 5) 2 (fun _ => 10) 0 = 5 := by
